@@ -1,7 +1,7 @@
 SPECIFICATION LiveSpec
 CONSTANTS
  Configs <- CfgsThorough
- MaxItems = 5  Horizon = 8
+ MaxItems = 6  Horizon = 10
  Urgent = TRUE  LockStep = FALSE  ReadyCons = FALSE  EagerProd = FALSE  KeepHist = FALSE
 INVARIANTS NoViol C12_Closed
 PROPERTIES C12_Live
